@@ -140,9 +140,30 @@ def _terminates(fr: Fraction) -> bool:
     return d == 1
 
 
+def _number(it):
+    t, v = it[0], it[1]
+    if t == 'i':
+        return Fraction(v)
+    if t == 'd':
+        return _frac(v) if '/' in v else None
+    if t in 'fD':
+        if v == 'NaN':
+            return 'NaN'
+        x = float(v)
+        return Fraction(x) if math.isfinite(x) else x
+    return None
+
+
+def _same_number(a, b) -> bool:
+    x, y = _number(a), _number(b)
+    return x is not None and y is not None and x == y
+
+
 def item_mismatch(exp, obs):
     """None if obs is acceptable for exp, else a short failure kind"""
     te, to = exp[0], obs[0]
+    if te != to and not (te == 'd' and to in 'id') and not _same_number(exp, obs):
+        return 'value'          # a different item altogether, not the right value with the wrong type
     if te == 'd':
         if to == 'i':
             return None if _frac(exp[1]) == obs[1] else 'value'
@@ -668,6 +689,8 @@ def selftest():
     assert item_mismatch(['d', '4/3'], ['d', '1333333333333333333333333333/1000000000000000000000000000']) is None
     assert item_mismatch(['d', '5/2'], ['d', '2500000000000000001/1000000000000000000']) == 'value'
     assert seq_mismatch([['i', 1]], []) == 'length'
+    assert item_mismatch(['D', '3.0'], ['s', 'a']) == 'value' and item_mismatch(['n', 1], ['i', 1]) == 'value'
+    assert item_mismatch(['f', 'NaN'], ['D', 'NaN']) == 'type:f->D' and item_mismatch(['i', 2], ['D', '3.0']) == 'value'
     assert has_boundary(['call', 'subsequence', [['empty'], ['dec', '1.5']]])
     assert depth(['for', [['x', ['empty']]], ['filter', ['var', 'x'], ['int', 1]]]) == 2
 
